@@ -128,11 +128,13 @@ func (e *env) open(fs storage.FileSystem, hs []recovery.CheckpointHandle) *dkv.D
 
 func (e *env) close() {
 	e.sched.ReleaseAll()
-	done := make(chan error, 1)
-	go func() { done <- e.db.WaitOnTasks() }()
-	select {
-	case <-done:
-	case <-time.After(watchdog):
+	if e.db != nil {
+		done := make(chan error, 1)
+		go func() { done <- e.db.WaitOnTasks() }()
+		select {
+		case <-done:
+		case <-time.After(watchdog):
+		}
 	}
 	// nothing may outlive the case: drain the tasks of every database it created
 	for _, p := range e.pinned {
